@@ -1,3 +1,5 @@
 #!/bin/sh
-# copies /tmp/seed/<ID>/out/<n>/ -> /verif/seeded/<ID>-s<n>/ (patch.diff demo.cpp notes.md) if not yet present
-for d in /tmp/seed/*/out/*/; do id=$(echo $d | cut -d/ -f4); n=$(basename $d); t=/verif/seeded/$id-s$n; [ -f $d/patch.diff ] || continue; [ -d $t ] && continue; mkdir -p $t; cp $d/patch.diff $d/demo.cpp $d/notes.md $t/ 2>/dev/null; echo imported $t; done
+# copies /tmp/<round>/<ID>/out/<n>/ -> /verif/seeded/<ID>-<tag><n>/ (patch.diff demo.cpp notes.md [demo.flags]) if not yet present
+# usage: import_seeds.sh [round dir under /tmp, default seed] [tag, default s]     e.g. import_seeds.sh seed2 r2-
+R=${1:-seed}; TAG=${2:-s}
+for d in /tmp/$R/*/out/*/; do id=$(echo $d | cut -d/ -f4); n=$(basename $d); t=/verif/seeded/$id-$TAG$n; [ -f $d/patch.diff ] || continue; [ -d $t ] && continue; mkdir -p $t; cp $d/patch.diff $d/demo.cpp $d/notes.md $t/ 2>/dev/null; [ -f $d/demo.flags ] && cp $d/demo.flags $t/; echo imported $t; done
